@@ -211,4 +211,69 @@ example : ∃ st' d' M',
 
 end Example
 
+/-! ## Non-vacuity, stronger: a comparison-faithful miniature of IEEE values — a NaN AND two zeros -/
+
+section Example2
+
+/-- `nan`, or an integer value with a sign-of-zero flag (`num 0 true` is `−0`, `num 0 false` is `+0`; the
+flag is ignored by every comparison, as IEEE `<` and `==` ignore the sign of zero). -/
+inductive Toy.Cmp where
+  | nan
+  | num (v : Int) (negZero : Bool)
+  deriving DecidableEq
+
+@[reducible] def Toy.cmpNum : Num Toy.Cmp where
+  lt a b := match a, b with | .num x _, .num y _ => decide (x < y) | _, _ => false
+  beq a b := match a, b with | .num x _, .num y _ => decide (x = y) | _, _ => false
+  add a b := match a, b with | .num x _, .num y _ => .num (x + y) false | _, _ => .nan
+  sub a b := match a, b with | .num x _, .num y _ => .num (x - y) false | _, _ => .nan
+  mul a b := match a, b with | .num x _, .num y _ => .num (x * y) false | _, _ => .nan
+  div a b := match a, b with | .num x _, .num y _ => if y = 0 then .nan else .num (x / y) false | _, _ => .nan
+  ofNat k := .num k false
+  half := .num 0 false
+  quarter := .num 0 false
+  sqrt a := a
+  abs a := match a with | .num x _ => .num x.natAbs false | .nan => .nan
+  maxValue := .num 1000000 false
+  infinity := .num 1000001 false
+  isNaN a := match a with | .nan => true | _ => false
+
+attribute [local instance] Toy.cmpNum
+
+theorem Toy.cmpOrderLaws : OrderLaws Toy.Cmp := by
+  refine ⟨?_, ?_⟩
+  · intro a b h
+    cases a <;> cases b <;> simp_all [Num.lt] <;> omega
+  · intro a b c hb h
+    cases a <;> cases b <;> cases c <;> simp_all [Num.lt, Num.isNaN] <;> omega
+
+theorem Toy.cmpBeqOrdOn : BeqOrdOn Toy.Cmp := by
+  intro a b ha hb
+  cases a <;> cases b <;> simp_all [Num.lt, Num.beq, Num.isNaN]
+  rename_i x _ y _
+  by_cases h1 : x < y <;> by_cases h2 : y < x <;> by_cases h3 : x = y <;> simp [h1, h2, h3] <;> omega
+
+/-- Neither type-level hypothesis of the earlier theorems holds here … -/
+example : (¬ ∀ x : Toy.Cmp, Num.isNaN x = false) ∧ ¬ LtTrichotomy Toy.Cmp := by
+  constructor
+  · intro h; have := h .nan; cases this
+  · intro T
+    have := T (.num 0 true) (.num 0 false) rfl rfl
+    cases this
+
+/-- … and the threshold theorem applies to a matrix holding `−0`, `+0` and a negative entry. -/
+example : ∃ st' d' M',
+    nnchainWith true .single State.new (Dendrogram.new 0)
+      (#[.num 0 true, .num 0 false, .num (-3) false] : Array Toy.Cmp) 3 = .ok (st', d', M') ∧
+    ∀ (h : Toy.Cmp) (u v : Nat), Num.isNaN h = false → u < 3 →
+      (SameCluster 3 d'.steps.toList h u v ↔
+        Reach 3 (#[.num 0 true, .num 0 false, .num (-3) false] : Array Toy.Cmp) h u v) :=
+  C04_nnchain_single_float Toy.cmpOrderLaws Toy.cmpBeqOrdOn rfl rfl true State.new
+    (Dendrogram.new 0) _ 3 (by decide) (by decide) (by decide) (by
+      intro x hx
+      simp only [Array.mem_def, List.mem_cons, List.mem_nil_iff, or_false] at hx
+      rcases hx with rfl | rfl | rfl <;> rfl)
+
+end Example2
+
 end Kodama
